@@ -73,11 +73,11 @@ func c07Disp(entry string, n []uint64, f []string) string {
 	switch err {
 	case nil:
 	case ErrFrameShort:
-		return "err 1"
+		return "err"
 	case ErrFrameLengthMismatch:
-		return "err 2"
+		return "err"
 	default:
-		return "err 9"
+		return "err"
 	}
 	if len(log) == 0 {
 		log = []string{"0"}
